@@ -44,6 +44,8 @@ type instrumenter struct {
 	curFile     string
 	curAST      *ast.File
 	topSpecs    map[*ast.ValueSpec]bool
+	pkgFuncs    map[string]bool // functions declared in the package
+	pkgMethods  map[string]bool // method names declared in the package
 	dense       bool // a scheduling point before every statement, not only those that mention package-level variables
 	hoisted     int
 	tmpN        int
@@ -353,6 +355,16 @@ func (in *instrumenter) newSite(pos token.Pos, acc []access) ast.Stmt {
 // mentionsPkgObject reports whether call has a package-level variable as its
 // receiver or as a direct argument (an operation on a shared object).
 func (in *instrumenter) mentionsPkgObject(call *ast.CallExpr) bool {
+	// a call of a function or method declared in this package may touch shared state behind
+	// locks of its own: the moment right after it returns is worth a scheduling point
+	if id, ok := call.Fun.(*ast.Ident); ok && in.pkgFuncs[id.Name] && (id.Obj == nil || id.Obj.Kind == ast.Fun) {
+		return true
+	}
+	if sel, ok := call.Fun.(*ast.SelectorExpr); ok && in.pkgMethods[sel.Sel.Name] {
+		if _, isPkg := sel.X.(*ast.Ident); !isPkg || in.varOf(sel.X) != "" || true {
+			return true
+		}
+	}
 	if sel, ok := call.Fun.(*ast.SelectorExpr); ok {
 		if v := in.varOf(sel.X); v != "" && !strings.HasPrefix(v, "wordlist.") {
 			return true
@@ -585,7 +597,7 @@ func instrumentPackage(dense bool) (map[string]string, map[string]interface{}) {
 	if err != nil {
 		die("scanning %s: %v", repoDir, err)
 	}
-	in := &instrumenter{pkgVars: map[string]bool{}, mapVars: map[string]bool{}, wordlistPkg: map[*ast.File]string{}, unsupported: map[string]bool{}, fset: token.NewFileSet(), topSpecs: map[*ast.ValueSpec]bool{}, dense: dense}
+	in := &instrumenter{pkgVars: map[string]bool{}, mapVars: map[string]bool{}, wordlistPkg: map[*ast.File]string{}, unsupported: map[string]bool{}, fset: token.NewFileSet(), topSpecs: map[*ast.ValueSpec]bool{}, dense: dense, pkgFuncs: map[string]bool{}, pkgMethods: map[string]bool{}}
 	for _, v := range vars {
 		in.pkgVars[v] = true
 	}
@@ -596,6 +608,15 @@ func instrumentPackage(dense bool) (map[string]string, map[string]interface{}) {
 			die("%v", err)
 		}
 		asts = append(asts, f)
+		for _, d := range f.Decls {
+			if fd, ok := d.(*ast.FuncDecl); ok {
+				if fd.Recv == nil {
+					in.pkgFuncs[fd.Name.Name] = true
+				} else {
+					in.pkgMethods[fd.Name.Name] = true
+				}
+			}
+		}
 		for _, d := range f.Decls {
 			gd, ok := d.(*ast.GenDecl)
 			if !ok || gd.Tok != token.VAR {
